@@ -430,6 +430,10 @@ class ReshapeLowered(ArrayExpr):
     def chunks(self):
         return self._outchunks
 
+    def _requires_grid_preservation(self, dependency):
+        # ``_outchunks`` was derived block for block from the input's grid
+        return True
+
     def _layer(self) -> dict:
         inchunks = self.array.chunks
         outchunks = self._outchunks
